@@ -3,6 +3,7 @@
 package cluster
 
 import (
+	"github.com/emitter-io/emitter/internal/event"
 	"strconv"
 	"sync/atomic"
 	"time"
@@ -52,3 +53,6 @@ func (p *Peer) VerifQueued() int {
 
 // VerifStateBytes is the encoded full replicated state (what periodic gossip sends).
 func (s *Swarm) VerifStateBytes() []byte { return s.state.Encode()[0] }
+
+// VerifDropState replaces the (closed) replicated state by an empty volatile one.
+func (s *Swarm) VerifDropState() { s.state = event.NewState("") }
